@@ -11,7 +11,7 @@ LEVEL = "exploration"
 RULE = ("(a) in memory, metamorphic: Hypothesis-generated sessions run once with a transport that accepts everything and once with generated per-call write capacities "
         "(1 byte .. unlimited, varying per call, the accepted count returned; also a transport returning None; also a write call that fails outright at a drawn call index: a call that then returns normally must not leave an incomplete message at the peer): the device-side byte stream must decode to the same packet sequence "
         "and all results must be equal, or the call raised. (b) real loopback TCP: AdbDevice(TcpTransport)/AdbDeviceAsync(TcpTransportAsync) push 64 KiB..3 MiB to a socket server "
-        "running the simulator with SO_RCVBUF=4096, a slow reader and client SO_SNDBUF=4096, transport_timeout_s set: content on the simulator == source, or the call raised. "
+        "running the simulator with SO_RCVBUF=4096, a slow reader and client SO_SNDBUF=4096, transport_timeout_s set: content on the simulator == source (a raise is a violation here: the peer is healthy); plus 100 KB / 1 MiB written directly through TcpTransport / TcpTransportAsync with 4 KiB socket buffers to a slow reader: what bulk_write reported as written is what the peer has after close(). "
         "Non-trivial: >= 1 write call accepted fewer bytes than offered. Distinct = case hash.")
 ASSUMPTIONS = ["in-memory transport reports the accepted count like socket.send / libusb bulkWrite", "kernel loopback TCP behaviour for part (b)"]
 
@@ -107,6 +107,9 @@ def replay(part, case):
     if part == "socket":
         from .. import sockcheck
         return sockcheck.check_push_case(case)[0]
+    if part == "tcp-write":
+        from .. import sockcheck
+        return sockcheck.check_transport(case)[0]
     return check_mem(case)[0]
 
 
@@ -121,4 +124,7 @@ def run(tier, seed):
         sockcheck = None
     if sockcheck is not None:
         col.merge(sockcheck.push_part(ID, tier, seed))
+        # transport level: what bulk_write reported as written (looping over its counts) is what the peer has after close()
+        strat = sockcheck.peer_cases().map(lambda c: dict(c, big_write=c["big_write"] or 100000, sndbuf=4096, peer_rcvbuf=4096))
+        col.merge(harness.hypothesis_part("tcp-write", strat, sockcheck.check_transport, 32 if quick else 480, seed))
     return harness.finish(ID, tier, seed, LEVEL, col, RULE, ASSUMPTIONS, t0)
